@@ -240,8 +240,8 @@ func verifyArgsRules(x *Ctx, va *ssa.Function) {
 		"the receiver of Match is a fresh slice to which Policy(delegations[i]) is appended for every i of a loop over all proofs", okAgg, dAgg)
 	// the accumulating loop is full range
 	okLoop := false
-	for _, l := range fullRangeLoops(va, "len(recv.proof)", "len(arg0)") {
-		if loopAppendsPolicies(va, l) {
+	for _, l := range fullRangeLoopsAt(va, "len(recv.proof)", "len(arg0)") {
+		if loopAppendsPolicies(l) {
 			okLoop = true
 		}
 	}
@@ -285,19 +285,23 @@ func isPolicyAppend(back *paths.Term) bool {
 		a.Args[0].Args[0].String() == "arg0" && a.Args[0].Args[1].Op == "iv"
 }
 
-func loopAppendsPolicies(f *ssa.Function, l *paths.Loop) bool {
+func loopAppendsPolicies(la loopAt) bool {
+	l := la.L
 	for _, in := range l.Header.Instrs {
 		phi, ok := in.(*ssa.Phi)
 		if !ok {
 			continue
 		}
-		t := paths.DetachedTerm(f, phi)
+		t := paths.DetachedTerm(l.Fn, phi)
+		if la.Sub != nil {
+			t = t.Subst(la.Sub)
+		}
 		if t.Op == "loopphi" && t.Args[1] != nil && isPolicyAppend(t.Args[1]) {
 			a := t.Args[1].Args[1]
 			for a.Op == "conv" {
 				a = a.Args[0]
 			}
-			if a.Args[0].Args[1].String() == ivName(l) {
+			if a.Args[0].Args[1].String() == fmt.Sprintf("iv#%d", l.Index) {
 				return true
 			}
 		}
@@ -536,18 +540,24 @@ func runC04(x *Ctx) {
 		}
 	}
 	// R3
-	if f := x.fn("C04.R3", invTok+"verifyTimeBound"); f != nil {
-		sel, _, _ := x.E.Select(f, paths.WantSuccess)
-		ok := len(sel) > 0
-		detail := ""
-		for _, v := range sel {
-			want := "call[" + invTok + "verifyTimeBoundAt](recv,call[time.Now](),arg0)"
-			if r := v.Results()[0].String(); r != want {
-				ok = false
-				detail += "returns " + r + ", want " + want + "\n"
+	if f := x.fn("C04.R3", invTok+"executionAllowed"); f != nil {
+		// whether through a one-line wrapper or directly: the instant handed to verifyTimeBoundAt on the
+		// authorization path is time.Now(), and the delegations are the ones loadProofs returned
+		n, ok, detail := 0, true, ""
+		for _, p := range x.pathsQuiet(f) {
+			for _, c := range p.Calls() {
+				ct := p.Term(c)
+				if ct.Op != "call" || ct.Name != invTok+"verifyTimeBoundAt" || len(ct.Args) != 3 {
+					continue
+				}
+				n++
+				if ct.Args[0].String() != "recv" || ct.Args[1].String() != "call[time.Now]()" || ct.Args[2].String() != "call["+invTok+"loadProofs](recv,arg0)#0" {
+					ok = false
+					detail += "checks " + ct.String() + "\n"
+				}
 			}
 		}
-		x.C.Obl("C04.R3", "clock:"+load.ShortName(f), x.pos(f), "verifyTimeBound checks at time.Now() the delegations it was given", ok, detail)
+		x.C.Obl("C04.R3", "clock:"+load.ShortName(f), x.pos(f), "the authorization path checks the time bounds at time.Now() on the delegations loadProofs returned", ok && n > 0, detail)
 	}
 	for _, recv := range []string{dlgTok, invTok} {
 		if f := x.fn("C04.R3", recv+"IsValidNow"); f != nil {
@@ -679,6 +689,9 @@ func runC05(x *Ctx) {
 	stage[invTok+"verifyTimeBound"] = true
 
 	for _, fd := range funcs {
+		if fd.name == invTok+"verifyTimeBound" && x.P.Func(fd.name) == nil {
+			continue // one-line wrapper of verifyTimeBoundAt: optional
+		}
 		f := x.fn("C05.R1", fd.name)
 		if f == nil {
 			continue
